@@ -368,6 +368,17 @@ def _scenarios(ctx, g):
     for k in (a, b):
         k.reap()
     ctx.case("scenario:handoff")
+    # 2d. two holders in ONE process (threads): the second must give up with the cache error while the first is inside
+    d = fresh("threads")
+    k = sched.spawn("T", d, g["inst"], ("threads",))
+    ft = run_to_end(k) if not k.fin else k.fin
+    k.reap()
+    if ft.get("t2") == "entered-while-held":
+        out.append(("overlap", "threads-scenario", "two threads of one process were inside `with CacheLock(dir)` at the same time: %s" % ft))
+    elif ft.get("t1") != "ok" or ft.get("t2") != "cacheerr":
+        out.append(("lock-error", "threads-scenario", "thread 1 holds the lock, thread 2 of the same process asks for it: %s (expected t1 ok, "
+                    "t2 the cache error)" % {x: ft.get(x) for x in ("result", "t1", "t2", "exc", "msg")}))
+    ctx.case("scenario:threads")
     # 2c. first use of a cache location that does not exist yet, by two loaders at once: both reach the creation of the
     #     directory before either has made it; both loads must succeed
     d = os.path.join(work, "sc_firstuse", "not", "yet", "there")
